@@ -199,6 +199,16 @@ def _greedy_filter(ctx: Ctx) -> None:
         ctx.ob("R13.2", REF, appends[0] if appends else loop, qual, "kept => overlap <= margin", bool(ok),
                "a hit is kept next to the previous one only if they overlap by at most the margin; otherwise it replaces the "
                "previous one only on a strictly better score", form=form)
+    # a replacement puts a hit next to the predecessor of the hit it replaced without ever comparing the two
+    for repl in replaces:
+        rechecked = any(isinstance(a, ast.While) for a in _ancestors(repl) if any(x is loop for x in _ancestors(a))) or \
+            any(last_attr(c) == "pop" and txt(c.func.value) == kept_list for c in calls(loop))
+        ctx.ob("R13.2", REF, repl, qual, "replacement re-checked against its new neighbour", rechecked,
+               "a hit that replaces the last kept hit is compared with the hit kept before that one (it was only ever compared "
+               "with the hit it replaced)",
+               detail="" if rechecked else "profiles P (length 100), Q (1000), R (100); hits P[0:100) s10, Q[10:600) s5, R[20:120) s50: Q is kept "
+               "next to P (margin 200), R replaces Q, and the result [P[0:100), R[20:120)] overlaps by 80 with a margin of 20",
+               form=stmt_key(repl))
     values = bound_from(func, margin)
     ok = False
     if len(values) == 1 and isinstance(values[0], ast.BinOp) and isinstance(values[0].op, ast.Mult):
